@@ -115,3 +115,16 @@ Theorem C09_compose_is_fresh :
      owned d /\ r_uid d = r_uid t /\ forall h, fst h <> r_uid t -> heap_get hp' h = heap_get hp h).
 Proof. split; [exact ComposeFresh.compose_fresh|exact ComposeFresh.compose_into_fresh]. Qed.
 Print Assumptions C09_compose_is_fresh.
+
+(* Filtration.copy(): when it succeeds, the copy has exactly the simplices of the source, each with its faces and with
+   the birth index it has in the source (for every source filtration that satisfies the two filtration invariants --
+   every filtration history, C13) *)
+From SV Require FiltClosed FiltBook FiltCopyContents.
+Theorem C09_filtration_copy_contents :
+  forall f uid, FiltClosed.minv f -> FiltBook.binv f -> forall hp orders hp' c,
+  f_copy hp f uid orders = (hp', c, Ok tt) ->
+  (forall s, containsSimplex (f_rep c) s = containsSimplex (f_rep f) s) /\
+  (forall s, containsSimplex (f_rep f) s = true ->
+     f_addedAtIndex c s = f_addedAtIndex f s /\ forall t, In t (faces (f_rep c) s) <-> In t (faces (f_rep f) s)).
+Proof. exact FiltCopyContents.f_copy_contents. Qed.
+Print Assumptions C09_filtration_copy_contents.
